@@ -468,6 +468,12 @@ def scenario_list(tier):
                 if not quick:
                     for rep in range(2 if N == 1 else 1):
                         out.append(dict(N=N, M=M, cls=cls, nreq=1000000, rep=rep))
+    # sample counts between the enumerated ones (a seeded draw; odd, prime and just-below-the-documented-maximum values:
+    # an implementation that gathers the samples in blocks has a ragged last block at such counts)
+    rs = np.random.default_rng(abs(SEED) + 1515)
+    mids = [int(x) for x in rs.integers(3, 30000, size=6 if quick else 60)] + [999983] + ([] if quick else [999999, 1000000 - 1 - 2 * int(rs.integers(1, 40000)), 524287, 932069])
+    for j, nreq in enumerate(mids):
+        out.append(dict(N=(1, 3)[j % 2] if nreq < 100000 else (1, 2)[j % 2], M=(5, 50, 2)[j % 3], cls=classes_for(5)[j % len(classes_for(5))], nreq=nreq, rep=0))
     # slow drift: consecutive snapshots ~1e-9 apart, equal grains swapping rank
     for N in (2, 3, 5):
         for M in (2, 5, 50):
